@@ -141,9 +141,13 @@ def emit(prop, tier, seed, results, project, t0, explanation, not_decided,
                 knowns.append((f, k))
             else:
                 violations.append(f)
-    if floors_bad:
+    if floors_bad and not violations:
         from .model import AnalysisError
         raise AnalysisError('instance floor not met: ' + '; '.join(floors_bad))
+    for fb in floors_bad:
+        # a rule that found fewer instances than expected decides nothing, but
+        # what the other rules found stands
+        print('NOTE instance floor not met (rule undecided): %s' % fb)
     print('== %s tier=%s: %d rules, %d obligations ==' % (
         prop, tier, len(results), len(obligations)))
     for r in results:
